@@ -178,6 +178,9 @@ func (rs *runState) explore(e *Entry, params map[string]int, maxPaths int) *entr
 		r := <-results
 		inflight--
 		st.Paths++
+		if st.Paths%5000 == 0 {
+			fmt.Fprintf(os.Stderr, "gosym: ... %s: %d paths, %d queued, %d violations, %.0fs\n", e.Func, st.Paths, len(stack), len(st.violations), time.Since(t0).Seconds())
+		}
 		if r.err != nil {
 			// crashed or stuck worker: the path is truncated; replace the worker
 			st.Truncated++
@@ -499,6 +502,17 @@ func checkMain(id, tier string) int {
 				}
 			}
 			if !ok {
+				continue
+			}
+		}
+		if only := os.Getenv("GOSYM_ONLY"); only != "" { // development aid: comma-separated entry indexes
+			hit := false
+			for _, x := range strings.Split(only, ",") {
+				if x == strconv.Itoa(i) {
+					hit = true
+				}
+			}
+			if !hit {
 				continue
 			}
 		}
